@@ -14,7 +14,7 @@ WORKERS = 4
 EXHAUSTIVE = {'quick': True, 'thorough': True}
 RULE = ('complete enumeration: every subset of {plain, @bash, @fish, @zsh, @pwsh} command definitions (32) x name in '
         '{X, PATH, DIRECTORY} x reference position {top level, tail of a word, through another definition, through two '
-        'definitions under four different pairs of names, under ||, ... and a within-word ||, and behind one definition below [], ..., || and inside a word} (14) x 4 target shells = 5376 grammars, each definition with its own marker command `echo M_<name>_<flavour>`; plus plain '
+        'definitions under four different pairs of names, under ||, ... and a within-word ||, and behind one definition below [], ..., || and inside a word} and inside a word that follows another external command (15) x 4 target shells = 5760 grammars, each definition with its own marker command `echo M_<name>_<flavour>`; plus plain '
         'non-command definitions of PATH / DIRECTORY. The rule of the statement (X@S, else plain, else built-in for '
         'PATH/DIRECTORY, else any word) is observed (1) on the command symbols of the automaton compiled by the real '
         'pipeline, (2) on the _<cmd>_cmd_N bodies of the script the real binary emits for the target (chosen marker '
@@ -23,7 +23,7 @@ RULE = ('complete enumeration: every subset of {plain, @bash, @fish, @zsh, @pwsh
         'and the next word is reached). non-trivial = every case; distinct by (grammar, target)')
 ASSUMPTIONS = ['for fish / zsh / pwsh the built-in case is judged as "one command body that is none of the grammar\'s markers"',
                'zsh: definitions for zsh and built-ins are compadd-style commands, plain {{{ }}} definitions are stdout commands']
-MIN_EVALS = {'quick': 5000, 'thorough': 5000}
+MIN_EVALS = {'quick': 5400, 'thorough': 5400}
 FLAVOURS = ('plain', 'bash', 'fish', 'zsh', 'pwsh')
 NAMES = ('X', 'PATH', 'DIRECTORY')
 POSITIONS = ('top', 'word', 'via')
@@ -38,6 +38,9 @@ VIA_UNDER = {
     'via-under-fallback': lambda x: gast.fb(x, lit('backup')),
     'via-in-word': lambda x: ('word', (lit('k='), x)),
 }
+
+
+OTHER_CMD = 'echo OTHERCMD'
 
 
 def marker(name, fl):
@@ -56,6 +59,9 @@ def build(name, subset, pos):
         stmts.append(call('cmd', seq(gast.many(gast.alt(lit('k'), nt(name))), lit('after'))))
     elif pos == 'under-fallback-in-word':
         stmts.append(call('cmd', seq(('word', (lit('pre='), gast.fb(lit('v'), nt(name)))), lit('after'))))
+    elif pos == 'word-after-command':
+        # another external command comes first in the script-wide numbering; the word must still run its own
+        stmts.append(call('cmd', seq(cmd(OTHER_CMD), ('word', (lit('pre='), nt(name))), lit('after'))))
     elif pos in VIA_UNDER:
         # behind one definition, and there below an operator: the dependency between definitions must be seen there
         stmts.append(call('cmd', seq(nt('W'), lit('after'))))
@@ -88,7 +94,7 @@ def all_cases():
         for k in range(len(FLAVOURS) + 1):
             for subset in itertools.combinations(FLAVOURS, k):
                 for pos in POSITIONS + tuple(VIA2) + ('under-fallback', 'under-repeat', 'under-fallback-in-word') + \
-                        tuple(VIA_UNDER):
+                        tuple(VIA_UNDER) + ('word-after-command',):
                     for target in common.SHELLS:
                         yield (name, subset, pos, target)
 
@@ -133,7 +139,7 @@ def judge_static(case, text, P, acc):
             inp = flat['inputs'][i]
             if inp['k'] in ('C', 'A', '*'):
                 syms.append((inp['k'], inp.get('c')))
-    cmds = [(k, c) for k, c in syms if k != '*']
+    cmds = [(k, c) for k, c in syms if k != '*' and not (pos == 'word-after-command' and c == OTHER_CMD)]
     stars = [s for s in syms if s[0] == '*']
     problem = None
     if choice[0] == 'marker':
@@ -159,6 +165,8 @@ def judge_static(case, text, P, acc):
         return None
     script = out.decode('utf-8', 'replace')
     bodies = command_bodies(script, target)
+    if pos == 'word-after-command':
+        bodies = {k: v for k, v in bodies.items() if v != OTHER_CMD}
     found_markers = set(re.findall(r'echo M_\w+', script))
     if choice[0] == 'marker':
         want = marker(name, choice[1])
@@ -190,9 +198,15 @@ def sig_class(name, subset, target):
 def judge_bash(case, text, script, acc, scratch):
     name, subset, pos, target = case
     choice = expected_choice(name, subset, 'bash')
-    lead = 'pre=' if pos == 'word' else ''
-    qs = [{'words': ['cmd', lead], 'cword': 1, 'wb': ''},
-          {'words': ['cmd', lead + 'zzz', ''], 'cword': 2, 'wb': ''}]
+    lead = 'pre=' if pos in ('word', 'word-after-command') else ''
+    before = ['OTHERCMD'] if pos == 'word-after-command' else []
+    n0 = len(before)
+    qs = [{'words': ['cmd'] + before + [lead], 'cword': n0 + 1, 'wb': ''},
+          {'words': ['cmd'] + before + [lead + 'zzz', ''], 'cword': n0 + 2, 'wb': ''}]
+    if pos == 'word-after-command':
+        # the word completed with what the chosen definition offers must be matched by running that definition
+        full = {'marker': 'M_%s_%s' % (name, choice[1]), 'builtin': 'd1', 'any': 'whatever'}[choice[0]]
+        qs.append({'words': ['cmd'] + before + [lead + full, ''], 'cword': n0 + 2, 'wb': ''})
     res = bashrun.run_session(script.decode(), 'cmd', qs, cwd=scratch)
     if res['timed_out'] or res['source_rc'] != 0 or res['results'][0] is None:
         acc.inconclusive.append('bash session failed for %s' % text)
@@ -212,6 +226,12 @@ def judge_bash(case, text, script, acc, scratch):
         acc.violation(dict(base, sig='wrong-definition-executed:' + sig_class(name, subset, 'bash'),
                            expected=sorted(want), observed=sorted(first), query=qs[0]))
         return
+    if pos == 'word-after-command':
+        third = {c[:-1] if c.endswith(' ') else c for c in res['results'][2]['reply']} if res['results'][2] else None
+        if third != {'after'}:
+            acc.violation(dict(base, sig='chosen-definition-not-run-when-matching:' + sig_class(name, subset, 'bash'),
+                               expected=['after'], observed=sorted(third or []), query=qs[2]))
+            return
     if choice[0] == 'any' and second != {'after'}:
         acc.violation(dict(base, sig='any-word-does-not-advance', expected=['after'], observed=sorted(second or []), query=qs[1]))
 
@@ -260,7 +280,7 @@ def run_job(job, acc):
             acc.seen((text, target))
             acc.count('cases_' + expected_choice(name, subset, target)[0])
             script = judge_static(case, text, P, acc)
-            if script is not None and target == 'bash' and pos in POSITIONS:
+            if script is not None and target == 'bash' and pos in POSITIONS + ('word-after-command',):
                 judge_bash(case, text, script, acc, scratch)
             if script is not None:
                 acc.sample({'grammar': text, 'target': target, 'expected': expected_choice(name, subset, target)})
